@@ -273,6 +273,45 @@ def shrink(cfg, ops, sig, budget=400):
     return ops
 
 
+def run_shards(chk, pre, cases, check_fn, legal_fn, shard, workers=8):
+    """Like Check.coq_cases, with fewer parallel coqc processes and a sequential retry of
+    shards that were killed (the box is shared; the kernel OOM killer picks coqc)."""
+    import concurrent.futures as cf
+    from ..core import coqc_file, split_evals
+    files = []
+    for k in range(0, len(cases), shard):
+        body = [pre, "Definition cases : list case := [", ";\n".join(cases[k:k + shard]), "].",
+                f"Eval vm_compute in (mismatches {check_fn} cases).",
+                f"Eval vm_compute in (count_true {legal_fn} cases)."]
+        f = chk.work / f"cases_{k // shard}.v"
+        f.write_text("\n".join(body) + "\n")
+        files.append((k, f))
+    mism, legal, errors, retry = [], 0, [], []
+
+    def take(k, f, rc, out, final):
+        nonlocal legal
+        parts = split_evals(out) if rc == 0 else []
+        if rc == 0 and len(parts) == 2:
+            mism.extend((k + c, st) for c, st in C.parse_pairs(parts[0]))
+            legal += C.parse_nat(parts[1])
+        elif not final and rc in (-9, 137, 124):
+            retry.append((k, f))
+        else:
+            errors.append(f"{f.name}: rc={rc}: {out[-600:]}")
+
+    with cf.ThreadPoolExecutor(max_workers=workers) as ex:
+        futs = {ex.submit(coqc_file, f, 900): (k, f) for k, f in files}
+        for fu in cf.as_completed(futs):
+            k, f = futs[fu]
+            rc, out, _ = fu.result()
+            take(k, f, rc, out, False)
+    for k, f in retry:                       # one at a time
+        rc, out, _ = coqc_file(f, 1200)
+        take(k, f, rc, out, True)
+    chk.checker_cmds.append(f"coqc cases_*.v ({len(files)} shards, {len(retry)} retried; comparison by vm_compute inside Coq)")
+    return sorted(mism), legal, errors
+
+
 def stats_of(rec):
     multi = sum(1 for s in rec.steps if s["op"][0] == "tell" and len(s["verdicts"]) >= 2)
     splits = sum(1 for s in rec.steps if s["op"][0] == "ask" for c in s["choices"] if c["kind"] == "split")
@@ -284,7 +323,7 @@ def stats_of(rec):
 
 def run(chk: Check) -> int:
     chk.prove(["theories/Props/C07.vo", "theories/Run/IntegratorRun.vo"], THEOREMS)
-    ncases = 150 if chk.quick else 2000
+    ncases = 150 if chk.quick else 1000
     max_ops = 140 if chk.quick else 400
     max_tells = 260 if chk.quick else 1500
     cases, metas = [], []
@@ -363,7 +402,7 @@ def run(chk: Check) -> int:
     check_fn = f"(check xi {C.bool_(repaired)})"
     legal_fn = f"(is_legal xi {C.bool_(repaired)})"
     # balance the shards: biggest cases dealt round-robin over 16 shards (padded with empty cases)
-    nsh = max(16, (len(cases) + 19) // 20)      # <= 20 cases per coqc process (memory)
+    nsh = max(16, (len(cases) + 11) // 12)      # <= 12 cases per coqc process (memory)
     shard = max(1, (len(cases) + nsh - 1) // nsh)
     dummy = C.tup(C.flt(0.0), C.flt(1.0), C.nat(1000), "[]")
     order = sorted(range(len(cases)), key=lambda i: -len(cases[i]))
@@ -372,7 +411,7 @@ def run(chk: Check) -> int:
         slots[(r % nsh) * shard + r // nsh] = i
     laid = [dummy if i is None else cases[i] for i in slots]
     ndummy = sum(1 for i in slots if i is None)
-    mism, legal, errors = chk.coq_cases("cases", preamble(), "case", laid, check_fn, legal_fn, shard=shard)
+    mism, legal, errors = run_shards(chk, preamble(), laid, check_fn, legal_fn, shard)
     mism = [(slots[c], st) for c, st in mism]
     legal -= ndummy
     for e in errors:
